@@ -20,13 +20,16 @@ SPEC = dict(
     "normals); expand / revolve: Jacobian determinant at every corner of a generated cell == base-cell Jacobian * layer thickness / 2 "
     "(symbolic base coordinates and thickness), layer numbering k*npoints + id; collect_edges/faces/volumes and add_midpoints_* / "
     "convert: the vertex sets are exactly the edges / faces / cell of the reference cell, each inserted point is the centroid of all "
-    "vertices of its set (symbolic coordinates) and on the reference cell the result is the target element's points table in order; "
+    "vertices of its set (symbolic coordinates; also for the enriched cell types quad8 / hexahedron20 / tetra10 / ..., whose further node "
+    "columns carry independent coordinates and must not enter the average) and on the reference cell the result is the target element's points table in order; "
     "line / rectangle / cube generators with symbolic bounds: positive cells, all points used, none duplicated; translate; "
-    "concatenate / stack / dual / merge_duplicate_points index bookkeeping.",
+    "concatenate / stack / dual / merge_duplicate_points index bookkeeping; merge_duplicate_points with decimals in {None, 0, 1, 4, 12} on exact "
+    "rational coordinates with near-duplicates well inside the tolerance.",
     trusted_base=["C04 reference points of the element classes", "numpy sort/unique on integer arrays", "C17.O6 (rotation matrices are proper rotations)"],
     explanation="constant-table analysis with exact rational geometry; algebraic value numbering for symbolic coordinates",
     exhaustive=True,
-    not_decided=["Circle / Triangle generators (scipy griddata interpolation)", "the rounding-tolerance clause of merge_duplicate_points on runtime coordinates",
+    not_decided=["Circle / Triangle generators (Mesh.fill_between calls scipy.interpolate.griddata: no summary of scattered-data interpolation; a sweep applied after scaling by a tiny radius, seeded change C16-c, is therefore not seen)",
+                 "the rounding-tolerance clause of merge_duplicate_points for binary floats near a rounding boundary",
                  "arbitrary compositions of transformations on concrete meshes (each step is covered separately)"],
     assumptions=["real arithmetic"],
 )
@@ -273,14 +276,26 @@ def run_midpoints(col):
         P0 = cvals(pts)
         X = symarray("X", (n, d))
         cells = np.arange(n).reshape(1, n)
+        # enriched cell types carry further node columns (mid-edge / mid-face points, free to lie anywhere on curved cells):
+        # the inserted points average the *vertices* only
+        enriched = {"triangle": {"faces": [("triangle6", 6)]}, "quad": {"faces": [("quad8", 8)]},
+                    "tetra": {"faces": [("tetra10", 10)], "volumes": [("tetra10", 10), ("tetra14", 14)]},
+                    "hexahedron": {"faces": [("hexahedron20", 20)], "volumes": [("hexahedron20", 20), ("hexahedron26", 26)]}}[ct]
+        variants = []
         for kind, fname in (("edges", "collect_edges"), ("faces", "collect_faces"), ("volumes", "collect_volumes")):
+            variants.append((kind, fname, ct, n))
+            for ect, ncol in enriched.get(kind, []):
+                variants.append((kind, fname, ect, ncol))
+        for kind, fname, ct_, ncol in variants:
             if kind == "volumes" and d == 2:
                 continue
             f = it.get(base + fname)
+            X = symarray("X", (ncol, d))
+            cells = np.arange(ncol).reshape(1, ncol)
             try:
-                pn, cn, _ = it.call(f, [X, cells, ct], {})
+                pn, cn, _ = it.call(f, [X, cells, ct_], {})
             except InterpRaise as e:
-                col.add("C16.O4", "%s %s" % (fname, ct), "supported cell type", False, str(e))
+                col.add("C16.O4", "%s %s" % (fname, ct_), "supported cell type", False, str(e))
                 continue
             pn = npmodel.to_obj(pn)
             cn = npmodel.to_int_array(np.asarray(cn))[0]
@@ -298,17 +313,17 @@ def run_midpoints(col):
                 cen = [sum((X[a, i] for a in used), ZERO) * Fraction(1, max(1, len(used))) for i in range(d)]
                 if any(not is_zero(P(pn[k, i]) - cen[i]) for i in range(d)):
                     bad_centroid.append(k)
-            col.add("C16.O4", "%s %s vertex sets" % (fname, ct), "the averaged vertex sets are exactly the %s of the cell (each once)" % kind, set(got_sets) == want and len(got_sets) == len(want),
+            col.add("C16.O4", "%s %s vertex sets" % (fname, ct_), "the averaged vertex sets are exactly the %s of the cell (each once)" % kind, set(got_sets) == want and len(got_sets) == len(want),
                     "mesh/_convert.py %s: got %s, expected %s" % (fname, sorted(map(sorted, got_sets)), sorted(map(sorted, want))))
-            col.add("C16.O4", "%s %s centroids" % (fname, ct), "each inserted point is the centroid of all vertices of its %s (symbolic coordinates)" % kind[:-1], not bad_centroid, "points %s" % bad_centroid)
-            col.add("C16.O4", "%s %s numbering" % (fname, ct), "the cell refers to each new point exactly once", sorted(cn.tolist()) == list(range(pn.shape[0])), str(cn.tolist()))
+            col.add("C16.O4", "%s %s centroids" % (fname, ct_), "each inserted point is the centroid of all vertices of its %s (symbolic coordinates)" % kind[:-1], not bad_centroid, "points %s" % bad_centroid)
+            col.add("C16.O4", "%s %s numbering" % (fname, ct_), "the cell refers to each new point exactly once", sorted(cn.tolist()) == list(range(pn.shape[0])), str(cn.tolist()))
         # ordering against the target element classes on the reference cell
         conv = it.get(base + "convert")
         targets = {"triangle": [("QuadraticTriangle", {}, "triangle6")], "tetra": [("QuadraticTetra", {}, "tetra10")],
                    "quad": [("QuadraticQuad", {}, "quad8"), ("BiQuadraticQuad", dict(calc_midfaces=True), "quad9")],
                    "hexahedron": [("QuadraticHexahedron", {}, "hexahedron20"), ("TriQuadraticHexahedron", dict(calc_midfaces=True, calc_midvolumes=True), "hexahedron27")]}[ct]
         for tname, kw, tct in targets:
-            pn, cn, tn = it.call(conv, [pts, cells, ct], dict(order=2, **kw))
+            pn, cn, tn = it.call(conv, [pts, np.arange(n).reshape(1, n), ct], dict(order=2, **kw))
             pn = cvals(npmodel.to_obj(pn))
             cn = npmodel.to_int_array(np.asarray(cn))[0].tolist()
             tp, _ = ref_points(it, tname)
